@@ -1591,6 +1591,7 @@ def rule_migmisc(text):
         (r"(FileStamp\s*::\s*read_regular\s*\([^()]*\)\s*\?)" + ws + r"\." + ws + r"as_ref\(\)" + ws + r"!=" + ws + r"Some\((\w+)\)", r"!stamp_is(&\1, \2)", "R-stampeq", "shim: comparison of an optional file stamp with the expected one"),
         (r"(\w+)" + ws + r"\." + ws + r"as_ref\(\)" + ws + r"==" + ws + r"Some\((\w+)\)", r"stamp_is(&\1, \2)", "R-stampeq", "shim: comparison of an optional file stamp with the expected one"),
         (r"fs\s*::\s*remove_file\s*\(", "fs_remove_file(", "R-fs", "shim: fs::remove_file"),
+        (r"drop\s*\(\s*self\s*\.\s*file\s*\.\s*take\s*\(\s*\)\s*\)\s*;", "drop_file(&mut self.file);", "R-take", "shim: dropping the taken file handle closes it and leaves None"),
         (r"(FileStamp::read(?:_store_file)?\([^()]*\)\?)" + ws + r"!=" + ws + r"(\w+)", r"stamp_ne(&\1, &\2)", "R-stampeq", "shim: comparison of two file stamps"),
         (r"source\.format_version\b(?!\()", "source.format_version()", "R-opq", "field read of the opaque store"),
         (r"verified\.format_version\b(?!\()", "verified.format_version()", "R-opq", "field read of the opaque store"),
